@@ -364,11 +364,15 @@ class Unit:
             if vacuity and not it.trusted:
                 res = []
                 done = False
+                pending = False
                 for l in woven:
+                    if pending and not (l.kind == 'ins' and l.text.strip().startswith(('hide(', 'reveal('))):
+                        res.append(Line('assert(false); //@vac', 'ins', (), None, 'vac', seg))
+                        pending = False
+                        done = True
                     res.append(l)
                     if not done and 'body_open' in l.flags:
-                        res.append(Line('assert(false); //@vac', 'ins', (), None, 'vac', seg))
-                        done = True
+                        pending = True
                 if it.kind == 'slice':
                     # slices: the wrapper fn is inserted text; put the probe before the first real line
                     res = []
